@@ -12,6 +12,7 @@ pub mod c06;
 pub mod c07;
 pub mod pw;
 pub mod c08;
+pub mod c09;
 pub mod c11;
 pub mod c14;
 pub mod c15;
